@@ -2,12 +2,17 @@ import QRV.Model.QR
 import QRV.Model.Micro
 import QRV.Model.RMQR
 import QRV.Spec.Valid
+import QRV.Lemmas.RTFinal
 /-
 C01 — encode/decode round trip is the identity.
 
 Stated about the symbol models (`Model.QR`, `Model.Micro`, `Model.RMQR`: function-for-function
 models of the three packages, tied to the Go code by `bin/check C01`) under the standard's
 validity predicate `Spec.Valid`.  The conclusion includes that encoding SUCCEEDS.
+
+QR (this file): proved in full.  The proof lives in `QRV/Lemmas/RT*.lean` (generic lemmas) and
+`QRV/Lemmas/RTFin*.lean` (kernel evaluation over the generated tables); its components are restated
+below as theorems of their own.
 -/
 namespace QRV.Props.C01
 open QRV QRV.Model QRV.Model.Sym QRV.Spec.Valid
@@ -18,6 +23,193 @@ specified (with automatic masking: to the mask that was chosen, which is in rang
 theorem roundtrip_QR (q : QRCode) (hv : QR.Valid q) (hne : NonEmptySegments q) :
     ∃ img m, Model.QR.encodeToBitmap q = .ok img ∧ (0 ≤ q.mask → m = q.mask) ∧ 0 ≤ m ∧ m ≤ 7 ∧
       Model.QR.decodeBitmap img = .ok { q with mask := m } := by
-  sorry
+  have _ := hne  -- not needed for QR: an empty segment decodes as an empty segment
+  exact QRV.Lemmas.RT.roundtrip_core q hv
+
+/-- the same without the non-emptiness hypothesis -/
+theorem roundtrip_QR_any (q : QRCode) (hv : QR.Valid q) :
+    ∃ img m, Model.QR.encodeToBitmap q = .ok img ∧ (0 ≤ q.mask → m = q.mask) ∧ 0 ≤ m ∧ m ≤ 7 ∧
+      Model.QR.decodeBitmap img = .ok { q with mask := m } :=
+  QRV.Lemmas.RT.roundtrip_core q hv
+
+/-! ## components -/
+
+section components
+open QRV.Model.Bits QRV.Model.Bitmap QRV.Spec.Bits QRV.Spec.Tables QRV.Lemmas.RT
+
+/-- A. the data stream is the standard's: segments (mode, count, data), terminator (only when more
+than four bits are free), zero bits to the byte boundary, pad codewords EC/11 up to the capacity -/
+theorem stream_layout_QR (q : QRCode) (hv : QR.Valid q) :
+    ∃ buf, Model.QR.encodeSegments q {} = .ok buf ∧ C16.Inv buf ∧
+      buf.len = 8 * dataCodewords q.version.toNat q.level.toNat ∧
+      C16.abs buf = q.segments.flatMap (segStream q.version.toNat) ++
+        streamTail (8 * dataCodewords q.version.toNat q.level.toNat)
+          (q.segments.flatMap (segStream q.version.toNat)).length ∧
+      buf.wrote = 0 ∧ buf.offset = 0 ∧ buf.read = 0 :=
+  stream_layout q hv
+
+/-- F. the segment loop parses such a stream back, whatever admissible tail follows -/
+theorem segments_parse_QR (n : Nat) (h1 : 1 ≤ n) (h40 : n ≤ 40) (segs : List Segment)
+    (hs : ∀ s ∈ segs, SegOK n s) (tail : List Bool) (ht : TailOK tail)
+    (bytes : List Nat) (hb : ∀ x ∈ bytes, x < 256)
+    (himg : unpack bytes = segs.flatMap (segStream n) ++ tail)
+    (acc : Array Segment) (fuel : Nat) (hf : segs.length < fuel) :
+    Model.QR.segmentLoop (n : Int) fuel { buf := bytes.toArray } acc = .ok (acc.toList ++ segs) :=
+  segments_parse n h1 h40 segs hs tail ht bytes hb himg acc fuel hf
+
+/-- A+F. encode the segments, parse the codewords: the segments -/
+theorem stream_roundtrip_QR (q : QRCode) (hv : QR.Valid q) :
+    ∃ buf, Model.QR.encodeSegments q {} = .ok buf ∧
+      buf.buf.size = dataCodewords q.version.toNat q.level.toNat ∧
+      (∀ b ∈ buf.buf.toList, b < 256) ∧
+      Model.QR.segmentLoop q.version (buf.buf.size * 8 + 8) { buf := buf.buf } #[] = .ok q.segments :=
+  stream_roundtrip q hv
+
+/-- B. the block split succeeds on every table row: consecutive chunks with their RS parity -/
+theorem split_blocks_QR (v l : Nat) (h1 : 1 ≤ v) (h40 : v ≤ 40) (hl : l < 4) (cap : Gen.GCap)
+    (hcap : (Gen.QR.capacityTable[v]?.getD [])[l]? = some cap)
+    (data : List Nat) (hlen : data.length = cap.data) (hb : ∀ b ∈ data, b < 256) :
+    ∃ blks, splitBlocks cap.blocks data = .ok blks ∧
+      blks = encBlocks (sizesOf cap.blocks) data ∧
+      blks.map (fun b => (b.1.length, b.2.length)) = sizesOf cap.blocks ∧
+      blks.flatMap (·.1) = data ∧
+      ∀ b ∈ blks, (∀ x ∈ b.1, x < 256) ∧ (∀ x ∈ b.2, x < 256) ∧ RS.parity b.2.length b.1 = .ok b.2 :=
+  splitBlocks_ok v l h1 h40 hl cap hcap data hlen hb
+
+/-- B. interleaving writes the codewords row by row -/
+theorem interleave_spec_QR (blocks : List (List Nat × List Nat))
+    (hb : ∀ b ∈ blocks, (∀ x ∈ b.1, x < 256) ∧ ∀ x ∈ b.2, x < 256)
+    (ret : Buffer) (hret : C16.Inv ret) :
+    ∃ buf, interleave blocks ret = .ok buf ∧ C16.Inv buf ∧
+      C16.abs buf = C16.abs ret ++ unpack (ilvList blocks) ∧
+      buf.offset = ret.offset ∧ buf.read = ret.read :=
+  interleave_spec blocks hb ret hret
+
+/-- E. `deinterleave ∘ interleave = id` on the block structure of every table row -/
+theorem deinterleave_interleave_QR (v l : Nat) (h1 : 1 ≤ v) (h40 : v ≤ 40) (hl : l < 4) (cap : Gen.GCap)
+    (hcap : (Gen.QR.capacityTable[v]?.getD [])[l]? = some cap)
+    (blks : List (List Nat × List Nat))
+    (hmap : blks.map (fun b => (b.1.length, b.2.length)) = sizesOf cap.blocks)
+    (hall : ∀ b ∈ blks, (∀ x ∈ b.1, x < 256) ∧ ∀ x ∈ b.2, x < 256) :
+    ∃ ibuf, interleave blks {} = .ok ibuf ∧ C16.Inv ibuf ∧
+      ibuf.wrote = 0 ∧ ibuf.offset = 0 ∧ ibuf.read = 0 ∧
+      ibuf.buf.toList = ilvList blks ∧ ibuf.buf.size = cap.total ∧
+      ∀ extra : List Nat, deinterleave cap.blocks cap.data cap.total (ibuf.buf.toList ++ extra) = .ok blks :=
+  deinterleave_interleave v l h1 h40 hl cap hcap blks hmap hall
+
+/-- E. every block of the encoder passes the Reed-Solomon decoder unchanged -/
+theorem clean_blocks_pass_QR (v l : Nat) (h1 : 1 ≤ v) (h40 : v ≤ 40) (hl : l < 4) (cap : Gen.GCap)
+    (hcap : (Gen.QR.capacityTable[v]?.getD [])[l]? = some cap)
+    (data : List Nat) (hlen : data.length = cap.data) (hb : ∀ b ∈ data, b < 256) :
+    ∃ blks, splitBlocks cap.blocks data = .ok blks ∧
+      (∀ b ∈ blks, RS.decode (b.1 ++ b.2) (Model.QR.RS_SYNDROMES b.2.length) = .ok (b.1 ++ b.2)) ∧
+      rsLoop blks = .ok (blks.flatMap (·.1)).toArray ∧ rsLoop blks = .ok data.toArray :=
+  clean_blocks_pass v l h1 h40 hl cap hcap data hlen hb
+
+/-- B+E. blocks: split, interleave, de-interleave, error-correct: the data -/
+theorem blocks_roundtrip_QR (v l : Nat) (h1 : 1 ≤ v) (h40 : v ≤ 40) (hl : l < 4) (cap : Gen.GCap)
+    (hcap : (Gen.QR.capacityTable[v]?.getD [])[l]? = some cap)
+    (data : List Nat) (hlen : data.length = cap.data) (hb : ∀ b ∈ data, b < 256) :
+    ∃ blks ibuf, splitBlocks cap.blocks data = .ok blks ∧ interleave blks {} = .ok ibuf ∧
+      C16.Inv ibuf ∧ ibuf.wrote = 0 ∧ ibuf.offset = 0 ∧ ibuf.read = 0 ∧
+      ibuf.buf.size = cap.total ∧
+      (∀ extra : List Nat, deinterleave cap.blocks cap.data cap.total (ibuf.buf.toList ++ extra) = .ok blks) ∧
+      rsLoop blks = .ok data.toArray :=
+  blocks_roundtrip v l h1 h40 hl cap hcap data hlen hb
+
+/-- C. the placement loop writes bit k of the buffer at the k-th coordinate of the walk -/
+theorem placeLoop_is_walk_QR (used : Image) (f : Int → Int → Bool) (hf : ∀ x y, used.binaryAt x y = .ok (f x y))
+    (w : Int) (fuel : Nat) (s : Walk) (cs : List (Int × Int)) (buf : Buffer) (img : Image)
+    (hw : walk f w fuel s = some cs) (hi : C16.Inv buf) (hr : buf.read < 8) :
+    Model.QR.placeLoop used w fuel s buf img =
+      (cs.zip (C17.unread buf)).foldlM (fun im p => im.setBinary p.1.1 p.1.2 p.2) img :=
+  placeLoop_eq used f hf w fuel s cs buf img hw hi hr
+
+/-- C. the reading loop appends the colours of the coordinates of the walk in order -/
+theorem readLoop_is_walk_QR (used img : Image) (f g : Int → Int → Bool)
+    (hf : ∀ x y, used.binaryAt x y = .ok (f x y)) (hg : ∀ x y, img.binaryAt x y = .ok (g x y))
+    (w : Int) (fuel : Nat) (s : Walk) (cs : List (Int × Int)) (buf : Buffer)
+    (hw : walk f w fuel s = some cs) (hi : C16.Inv buf) :
+    ∃ buf', Model.QR.readLoop used img w fuel s buf = .ok buf' ∧ C16.Inv buf' ∧
+      C16.abs buf' = C16.abs buf ++ cs.map (fun c => g c.1 c.2) :=
+  readLoop_eq used img f g hf hg w fuel s cs buf hw hi
+
+/-- C. the coordinates are pairwise distinct, inside the symbol, and not function modules -/
+theorem walk_sound_QR (f : Int → Int → Bool) (w : Int) (hw : 0 ≤ w) (fuel : Nat) (cs : List (Int × Int))
+    (h : walk f w fuel (start w) = some cs) :
+    cs.Nodup ∧ ∀ c ∈ cs, 0 ≤ c.1 ∧ c.1 ≤ w ∧ 0 ≤ c.2 ∧ c.2 ≤ w ∧ f c.1 c.2 = false :=
+  walk_sound f w hw fuel cs h
+
+/-- C. every version: the model's fuel suffices and there is room for all codewords -/
+theorem walk_version_QR (v : Nat) (h1 : 1 ≤ v) (h40 : v ≤ 40) :
+    ∃ cs, walk (usedFn v) (16 + 4 * (v : Int)) (fuelOf (16 + 4 * (v : Int))) (start (16 + 4 * (v : Int))) = some cs ∧
+      8 * totalCodewords v ≤ cs.length :=
+  walk_version v h1 h40
+
+/-- C. placement: after the loop, module cs[k] holds bit k of the interleaved stream -/
+theorem placement_QR (v : Nat) (base used : Image)
+    (hrb : C18.Regular base (17 + 4 * v) (17 + 4 * v))
+    (hbin : ∀ x y, used.binaryAt x y = .ok (usedFn v x y)) (ibuf : Buffer) (hinv : C16.Inv ibuf)
+    (hoff : ibuf.offset = 0) (hread : ibuf.read = 0) (cs : List (Int × Int))
+    (hwalk : walk (usedFn v) (16 + 4 * (v : Int)) (fuelOf (16 + 4 * (v : Int))) (start (16 + 4 * (v : Int))) = some cs)
+    (hlen : 8 * ibuf.buf.toList.length ≤ cs.length) :
+    ∃ img1, Model.QR.placeLoop used (16 + 4 * (v : Int)) ((16 + 4 * (v : Int) + 3) * (16 + 4 * (v : Int) + 3)).toNat
+        { x := 16 + 4 * (v : Int), y := 16 + 4 * (v : Int), dy := -1 } ibuf base = .ok img1 ∧
+      C18.Regular img1 (17 + 4 * v) (17 + 4 * v) ∧
+      ∀ k (hk : k < 8 * ibuf.buf.toList.length),
+        C18.px img1 (cs[k]'(by omega)).1.toNat (cs[k]'(by omega)).2.toNat =
+          (unpack ibuf.buf.toList)[k]'(by simpa using hk) :=
+  placement_spec v base used hrb hbin ibuf hinv hoff hread cs hwalk hlen
+
+/-- D. the base, used and mask bitmaps of a valid version are regular images; the used bitmap
+answers `usedFn` -/
+theorem version_images_QR (v : Nat) (h1 : 1 ≤ v) (h40 : v ≤ 40) :
+    imgAt Model.QR.baseList (v : Int) = .ok (some (Image.ofGen (baseGen v))) ∧
+    imgAt Model.QR.usedList (v : Int) = .ok (some (Image.ofGen (usedGen v))) ∧
+    C18.Regular (Image.ofGen (baseGen v)) (17 + 4 * v) (17 + 4 * v) ∧
+    C18.Regular (Image.ofGen (usedGen v)) (17 + 4 * v) (17 + 4 * v) ∧
+    ∀ x y, (Image.ofGen (usedGen v)).binaryAt x y = .ok (usedFn v x y) :=
+  version_images v h1 h40
+
+/-- D. `placeFormat` only writes function modules, and its first copy holds the word -/
+theorem format_write_QR (v : Nat) (h1 : 1 ≤ v) (h40 : v ≤ 40) (img : Image)
+    (hr : C18.Regular img (17 + 4 * v) (17 + 4 * v)) (fmt : Nat) :
+    ∃ img', Model.QR.placeFormat img (16 + 4 * (v : Int)) fmt = .ok img' ∧
+      C18.Regular img' (17 + 4 * v) (17 + 4 * v) ∧
+      (∀ x y : Nat, x < 17 + 4 * v → y < 17 + 4 * v → usedFn v (x : Int) (y : Int) = false →
+        C18.px img' x y = C18.px img x y) ∧
+      (∀ i : Nat, i < 8 → C18.px img' 8 (sk i) = fmt.testBit i ∧ C18.px img' (sk i) 8 = fmt.testBit (14 - i)) :=
+  placeFormat_spec v h1 h40 img hr fmt
+
+/-- D. reading the format information: a first copy holding table entry idx gives (idx/8, idx%8) -/
+theorem format_roundtrip_QR (img : Image) (n : Nat) (hr : C18.Regular img n n) (hn : 9 ≤ n) (idx c : Nat)
+    (hidx : idx < 32) (hc : Gen.QR.encodedFormat[idx]? = some c)
+    (h1 : ∀ i : Nat, i < 8 → C18.px img 8 (sk i) = c.testBit i)
+    (h2 : ∀ i : Nat, i < 8 → C18.px img (sk i) 8 = c.testBit (14 - i)) :
+    Model.QR.decodeFormat img = .ok (((idx >>> 3 : Nat) : Int), ((idx &&& 7 : Nat) : Int)) :=
+  decodeFormat_first img n hr hn idx c hidx hc h1 h2
+
+/-- D. the version information loop only writes function modules -/
+theorem version_write_QR (v : Nat) (h1 : 1 ≤ v) (h40 : v ≤ 40) (img : Image)
+    (hr : C18.Regular img (17 + 4 * v) (17 + 4 * v)) :
+    ∃ img', versionStep (v : Int) (16 + 4 * (v : Int)) img = .ok img' ∧
+      C18.Regular img' (17 + 4 * v) (17 + 4 * v) ∧
+      ∀ x y : Nat, x < 17 + 4 * v → y < 17 + 4 * v → usedFn v (x : Int) (y : Int) = false →
+        C18.px img' x y = C18.px img x y :=
+  versionStep_spec v h1 h40 img hr
+
+/-- D. the penalty score never fails on a regular image -/
+theorem point_total_QR (i : Image) (w h : Nat) (hr : C18.Regular i w h) : ∃ n, i.point = .ok n :=
+  point_ok i w h hr
+
+/-- D. the mask choice (explicit, or the automatic loop whatever the scores are) yields a mask 0..7 -/
+theorem mask_choice_QR (v l : Nat) (h1 : 1 ≤ v) (h40 : v ≤ 40) (hl : l < 4) (mask : Int)
+    (hm1 : -1 ≤ mask) (hm7 : mask ≤ 7) (used img : Image)
+    (hru : C18.Regular used (17 + 4 * v) (17 + 4 * v)) (hr : C18.Regular img (17 + 4 * v) (17 + 4 * v)) :
+    ∃ m : Nat, m < 8 ∧ chooseMask mask (l : Int) (16 + 4 * (v : Int)) used img = .ok (m : Int) ∧
+      (0 ≤ mask → (m : Int) = mask) :=
+  chooseMask_spec v l h1 h40 hl mask hm1 hm7 used img hru hr
+
+end components
 
 end QRV.Props.C01
